@@ -3,6 +3,7 @@ drives C entry points through the wrappers the package itself uses and returns a
 name -> ndarray of every output.  A workload is executed twice by the engine, once with a
 team of one (reference) and once under the schedule being explored."""
 import ctypes
+import os
 
 import numpy as np
 
@@ -522,7 +523,7 @@ def draw_vxc_params(rng):
 def wl_vxc_numint(p):
     from ciderpress.lib import load_library
 
-    lib = load_library("libnumint")
+    lib = _Syms(load_library("libnumint"))
     r = np.random.default_rng(p["dseed"])
     n, m = p["n"], p["m"]
     coords = np.ascontiguousarray(r.normal(size=(n, 3)))
@@ -584,7 +585,7 @@ def wl_pbc_helpers(p):
     import ciderpress.dft.plans  # noqa: F401  (loads libmcider through the package's seam)
     from ciderpress.lib import load_library
 
-    lib = load_library("libmcider")
+    lib = _Syms(load_library("libmcider"))
     r = np.random.default_rng(p["dseed"])
     out = {}
 
@@ -678,6 +679,8 @@ def wl_atc_misc(p):
     from ciderpress.pyscf.nldf_convolutions import aug_etb_for_cider, get_gamma_lists_from_mol
     from cidersim import zoo
 
+    libcider = _Syms(libcider)
+
     r = np.random.default_rng(p["dseed"])
     mol = zoo.make_mol(p["mol"], "sto-3g")
     basis = aug_etb_for_cider(mol, lmax=p["lmax"], beta=p["beta"])
@@ -718,7 +721,7 @@ def wl_misc_direct(p):
     import ciderpress.dft.plans  # noqa: F401
     from ciderpress.lib import load_library
 
-    lib = load_library("libmcider")
+    lib = _Syms(load_library("libmcider"))
     r = np.random.default_rng(p["dseed"])
     out = {}
     n, nc, nf = p["n"], p["nctrl"], p["nfeat"]
@@ -785,10 +788,60 @@ def draw_legacy_params(rng):
     }
 
 
+_NPARAMS = {}
+
+
+def c_nparams(name):
+    """number of parameters of the definition of C function `name` in the tree under test
+    (None if no definition is found): the direct ctypes calls below follow the C signatures
+    of the tree they were written for, and a refactor that changes a signature must make the
+    call be skipped, not crash the reference run"""
+    if name in _NPARAMS:
+        return _NPARAMS[name]
+    import glob
+    import re
+
+    from cidersim import build as _b
+
+    res = None
+    pat = re.compile(r"^[A-Za-z_][A-Za-z_0-9 \t\*]*?\b%s\s*\(" % re.escape(name), re.M)
+    for f in sorted(glob.glob(os.path.join(_b.repo_root(), "ciderpress", "lib", "*", "*.c"))):
+        try:
+            txt = open(f, errors="replace").read()
+        except OSError:
+            continue
+        for m in pat.finditer(txt):
+            i = m.end()
+            depth, n, seen = 1, 0, False
+            while i < len(txt) and depth > 0:
+                ch = txt[i]
+                if ch == "(":
+                    depth += 1
+                elif ch == ")":
+                    depth -= 1
+                elif ch == "," and depth == 1:
+                    n += 1
+                elif not ch.isspace():
+                    seen = True
+                i += 1
+            j = i
+            while j < len(txt) and txt[j].isspace():
+                j += 1
+            if j < len(txt) and txt[j] == "{":  # a definition, not a prototype or a call
+                arglist = txt[m.end() : i - 1].strip()
+                res = 0 if arglist in ("", "void") else n + 1
+                break
+        if res is not None:
+            break
+    _NPARAMS[name] = res
+    return res
+
+
 class _Syms:
     """entry points by name; one that the tree under test no longer exports (a dead routine
-    was removed or renamed) is skipped - the call does nothing and is recorded in `absent` -
-    instead of failing the harness"""
+    was removed or renamed), or defines with another number of parameters than the call
+    passes, is skipped - the call does nothing and is recorded in `absent` - instead of
+    failing the harness"""
 
     def __init__(self, lib):
         self._lib = lib
@@ -796,10 +849,23 @@ class _Syms:
 
     def __getattr__(self, name):
         try:
-            return getattr(self._lib, name)
+            fn = getattr(self._lib, name)
         except AttributeError:
             self.absent.append(name)
             return lambda *a: None
+
+        def call(*a):
+            n = c_nparams(name)
+            if n is not None and n != len(a):
+                self.absent.append(name)
+                SKIPPED_SIGNATURE.add(name)
+                return None
+            return fn(*a)
+
+        return call
+
+
+SKIPPED_SIGNATURE = set()
 
 
 def wl_legacy_direct(p):
@@ -900,6 +966,7 @@ def wl_legacy_sdmx(p):
     from ciderpress.pyscf.sdmx import EXXSphGenerator, _get_nrf, _get_rf_loc, _get_ylm_atom_loc, libcider
     from cidersim import zoo
 
+    libcider = _Syms(libcider)
     rng = Rng(derive("omp-legacy-sdmx", p["sseed"]))
     st = zoo.make_settings(p["kind"], rng, normalizer=False)
     mol = zoo.make_mol(p["mol"], p["basis"])
